@@ -11,6 +11,7 @@ package zzverif
 
 import (
 	"bytes"
+	"os"
 	"runtime"
 	"strconv"
 	"strings"
@@ -24,6 +25,7 @@ type schedStep struct {
 	Pos  string `json:"pos"`
 	UPos string `json:"upos"`
 	Case int    `json:"case"`
+	Skip bool   `json:"skip"`
 }
 
 type gorInfo struct {
@@ -143,6 +145,12 @@ func (p *pin) advanceLocked() {
 			p.next++
 			continue
 		}
+		if st.Skip {
+			// no replay point for this operation: it is not ordered natively
+			p.done[p.next] = true
+			p.next++
+			continue
+		}
 		if !p.native[st.G] && !p.mayAppear(st.G) {
 			// a model-only goroutine (context watcher, deadline timer)
 			if f := p.fire[p.nameOf(st.G)]; f != nil {
@@ -194,7 +202,7 @@ func (p *pin) enter(site string) int {
 	idx := -1
 	for i := p.from[id]; i < len(p.steps); i++ {
 		st := p.steps[i]
-		if st.G != id || p.done[i] {
+		if st.G != id || p.done[i] || st.Skip {
 			continue
 		}
 		if st.UPos == site || st.Pos == site {
@@ -203,6 +211,9 @@ func (p *pin) enter(site string) int {
 		}
 	}
 	if idx < 0 {
+		if pinDebug {
+			out("VERIF-PIN g%d at %s: no step left", id, site)
+		}
 		return -2 // beyond the recorded trace: run freely
 	}
 	// steps of this goroutine that were skipped have no native counterpart
@@ -227,8 +238,13 @@ func (p *pin) enter(site string) int {
 		p.advanceLocked()
 	}
 	p.cur[id] = idx
+	if pinDebug {
+		out("VERIF-PIN g%d step %d %s %s case=%d waited-ok=%v next=%d", id, idx, p.steps[idx].Op, site, p.steps[idx].Case, p.next >= idx, p.next)
+	}
 	return p.steps[idx].Case
 }
+
+var pinDebug = os.Getenv("VERIF_PIN_DEBUG") != ""
 
 func waitCond(c *sync.Cond, d time.Duration) {
 	t := time.AfterFunc(d, c.Broadcast)
